@@ -14,17 +14,16 @@ Proof.
   unfold faF, newaL, finals_of. rewrite (znth_tab (-1)) by auto. reflexivity.
 Qed.
 
-(* C05: an illegal move of an unfinished agent: the agent stays, its route is untouched, and its reward term is
-   time-step + noop penalty -- EXCEPT that the noop penalty is dropped when the agent has already visited node N-1
-   (connected_nodes_index[agent, -1] wraps to the last node). *)
+(* C05: an illegal move of an unfinished agent: the agent stays, its route is untouched, its action code is
+   INVALID_CHOICE and its reward term is time-step + noop penalty (the documented "-1.0 and an extra -1.0"). *)
 Theorem illegal_move c start s acts perm a :
   Inv c start s -> 0 <= a < cA c -> znth false (fin s) a = false ->
   legal_move (cA c) s a (jclamp (cN c) (znth 0 acts a)) = false ->
   let t := s' c s acts perm in
   znth 0 (pos t) a = znth 0 (pos s) a /\ znth [] (conn t) a = znth [] (conn s) a
   /\ znth [] (cidx t) a = znth [] (cidx s) a /\ znth 0 (pidx t) a = znth 0 (pidx s) a
-  /\ faF c s acts perm a = (if visited s a (cN c - 1) then INVALID_ALREADY_TRAVERSED else INVALID_CHOICE)
-  /\ rew_term c s acts perm a = rt c + (if visited s a (cN c - 1) then 0 else rn c).
+  /\ faF c s acts perm a = INVALID_CHOICE
+  /\ rew_term c s acts perm a = rt c + rn c.
 Proof.
   intros HI Ha F L t.
   pose proof (inv_wf c start s HI) as HW. pose proof (wf_N c s HW) as HN. pose proof (wf_A c s HW) as HA.
@@ -32,10 +31,8 @@ Proof.
   { rewrite (nodeF_eat c start s acts HI a Ha).
     rewrite (inv_E c start s HI a _ _ Ha (wf_pos1 c s HW a Ha) (jclamp_range _ _ HN)).
     unfold legal_move in L. rewrite L. reflexivity. }
-  assert (Fa : faF c s acts perm a = (if visited s a (cN c - 1) then INVALID_ALREADY_TRAVERSED else INVALID_CHOICE)).
-  { unfold faF, final_act. rewrite F. rewrite (nodes_nth c s acts a Ha), Nd.
-    rewrite jget_m1 by (rewrite (wf_ci1 c s HW a Ha); lia). rewrite (wf_ci1 c s HW a Ha).
-    unfold visited, gat. destruct (negb (znth (-1) (znth [] (cidx s) a) (cN c - 1) =? -1)); auto.
+  assert (Fa : faF c s acts perm a = INVALID_CHOICE).
+  { unfold faF, final_act. rewrite F. rewrite (nodes_nth c s acts a Ha), Nd. cbn [Z.eqb negb andb].
     unfold newaL. apply invalid_keeps; auto.
     - apply (nodes_len c start s acts HI).
     - intros k Hk. rewrite (nodes_nth c s acts k Hk). pose proof (nodeF_range c start s acts HI k Hk). lia.
@@ -46,8 +43,8 @@ Proof.
     (cidx_s' c s acts perm), (pidx_s' c s acts perm).
   rewrite (znth_tab 0), !(znth_tab []), (znth_tab 0) by auto. rewrite M.
   repeat split; auto.
-  unfold rew_term. rewrite Fa, F. unfold agent_reward, INVALID_ALREADY_TRAVERSED, INVALID_CHOICE, INVALID_TIE_BREAK.
-  destruct (visited s a (cN c - 1)); cbn [Z.ltb Z.eqb Z.compare b2z Pos.eqb Pos.compare Pos.compare_cont]; rewrite andb_false_r; lia.
+  unfold rew_term. rewrite Fa, F. unfold agent_reward, INVALID_CHOICE, INVALID_TIE_BREAK.
+  cbn [Z.ltb Z.eqb Z.compare b2z Pos.eqb Pos.compare Pos.compare_cont]. rewrite andb_false_r. lia.
 Qed.
 
 (* C06 completion: a finished agent has all its required nodes in one connected visited set containing its start *)
